@@ -288,5 +288,10 @@ def compiler_log(s, path, rng, allow_zero_total=False, force=None):
         lines.append(f"{n}-{cats[0]}".ljust(80) + "4096".ljust(15))
     lines += ["-" * 91, f"Total\t\t\t\t\t\t\t\t\t\t{total}", "-" * 91, "====== Perf Summary End ======",
               "[DeepRT] ===== Perf END ====="]
+    if force == "no_table":          # a log file in which no ideal-cycle table is found at all
+        lines = ["[DeepRT] compile started", "some unrelated line", "[DeepRT] compile finished"]
+        table = {}
+    if force == "autopilot_first":   # an autopilot section ahead of the (only) table
+        lines = ["[DeepRT] ===== DSM-AutoPilot BEGIN =====", "[DeepRT] ===== DSM-AutoPilot END ====="] + lines
     open(path, "w").write("\n".join(lines) + "\n")
     return table
